@@ -19,7 +19,7 @@ LEVEL = "model_checking"
 RULE = ("programs = one document per (property kind, required?, literal_enums?) over the kind algebra "
         "(atoms, array(k), ordered union pairs, nullable notations, typed additionalProperties, two-property "
         "models, recursive/mutual/allOf shapes); plus model usage contexts (multipart / form / JSON body, both orders, response) x typed additionalProperties with undeclared keys, allOf families (parent, stricter child, sibling as targets, all 6 declaration orders, 7 child modes), nested unions whose later member would swallow an earlier member's values, 3.0.3 twins of the single-kind documents; inputs = full product of RM-inst instances per program; a case is "
-        "non-trivial when the model class was generated and at least one instance was round-tripped")
+        "non-trivial when the model class was generated and at least one instance was round-tripped; unions of two objects giving one required key different kinds (12 x 11 ordered pairs), builtin-named properties next to union / array / nullable siblings, properties declaring a default (16 kind/value pairs x required x declared first/last x sibling required) whose omission must survive the round trip")
 FLOOR = 0.6
 ASSUMPTIONS = ["RM-inst generates canonical forms only (ISO dates as Python prints them, lower-case UUIDs)",
                "oneOf is treated like anyOf (generated code validates neither exclusivity nor formats)"]
